@@ -66,11 +66,13 @@ Section StepsProof.
       destruct (ack (fc f)); cbn [prun exec]; rewrite app_nil_r; apply After; lia.
   Qed.
 
+  (* for the device whose key verifies the frame (the one the decrypter hands to processMessage) *)
   Theorem run_uplink_complete fuel st f rx n now : (13 <= fuel)%nat ->
+    (forall r, ds_row st = Some r -> mic_ok E f (rx_raw rx) (load st r) = true) ->
     prun apps fuel st (uplink_prog E D f rx n now) [] = l_uplink E D apps st f rx n now.
   Proof.
-    intros Hf. unfold uplink_prog, l_uplink. destruct fuel as [|fuel]; try lia. cbn [prun exec app].
-    destruct (ds_row st) as [r|]; [|reflexivity]. unfold process_message.
+    intros Hf Hmic. unfold uplink_prog, l_uplink. destruct fuel as [|fuel]; try lia. cbn [prun exec app].
+    destruct (ds_row st) as [r|] eqn:Hrow; [|reflexivity]. rewrite (Hmic r eq_refl). cbn [negb]. unfold process_message.
     set (dev := load st r). destruct (stale dev f); [reflexivity|]. unfold pm_counter.
     assert (Body : forall fuel' st1 dev1, (11 <= fuel')%nat ->
       prun apps fuel' st1
@@ -343,6 +345,7 @@ Section StepsProof.
       { split; [exact Hfb0|]. split; [reflexivity|]. exists r0. split; [exact Hrow0|]. split; [apply same_session_refl|]. split; [lia | now left]. }
       unfold uplink_prog. cbn [always]. split; [exact H0|]. split; [exact I|]. split; [|intros _; cbn; tauto].
       cbn [exec]. rewrite Hrow0. set (dev := load st0 r0).
+      destruct (negb (mic_ok E f (rx_raw rx) dev)); [cbn; tauto|].
       destruct (stale dev f) eqn:Est; [cbn; tauto|].
       (* strict and not stale: the counter is advanced first *)
       assert (Hle : (d_fup dev <=? fcnt f) = true).
@@ -528,6 +531,7 @@ Section StepsProof.
       pose proof (dn0 _ _ H00) as H0.
       unfold uplink_prog. cbn [alwaysA]. split; [exact H0|]. split; [|intros _; cbn; tauto].
       cbn [exec app]. rewrite Hrow0. set (dev := load st0 r0).
+      destruct (negb (mic_ok E f (rx_raw rx) dev)); [cbn; tauto|].
       destruct (stale dev f) eqn:Est; [cbn; tauto|].
       assert (Hle : (d_fup dev <=? fcnt f) = true).
       { unfold stale in Est. change (d_relaxed dev) with (d_relaxed r0) in Est. rewrite Hstrict in Est. cbn in Est.
